@@ -79,7 +79,7 @@ func c03Rows() []row {
 		{F: "verifier.(*accountBlockVerifier).fromHash", C: "T(recv.accountStore.IsReceived($b.FromBlockHash)) @ F($b.IsSendBlock())"},
 		{F: "verifier.(*accountBlockVerifier).momentumAcknowledged", C: "ne(nil,recv.momentumStore.GetFrontierMomentum()#1)"},
 		{F: "verifier.(*accountBlockVerifier).momentumAcknowledged", C: "ne($b.MomentumAcknowledged,recv.momentumStore.GetFrontierMomentum()#0.Identifier())"},
-		{F: "verifier.(*accountBlockVerifier).momentumAcknowledged", C: "ne($b.DescendantBlocks[(iter+1)].MomentumAcknowledged,$b.MomentumAcknowledged) @ F(verifier.isBatched($b)) & T(verifier.isContractReceive($b))"},
+		{F: "verifier.(*accountBlockVerifier).momentumAcknowledged", C: "ne($b.DescendantBlocks[iter].MomentumAcknowledged,$b.MomentumAcknowledged) @ F(verifier.isBatched($b)) & T(verifier.isContractReceive($b))"},
 		{F: "verifier.(*accountBlockVerifier).momentumAcknowledged", C: "ne(nil,recv.momentumStore.GetBlockConfirmationHeight($b.FromBlockHash)#1) @ F(verifier.isBatched($b)) & T(verifier.isContractReceive($b))"},
 		{F: "verifier.(*accountBlockVerifier).momentumAcknowledged", C: "ne($b.MomentumAcknowledged.Height,recv.momentumStore.GetBlockConfirmationHeight($b.FromBlockHash)#0) @ F(verifier.isBatched($b)) & T(verifier.isContractReceive($b))"},
 		{F: "verifier.(*accountBlockVerifier).momentumAcknowledged", C: "ne(nil,recv.accountStore.ByHeight($b.Previous().Height)#1) @ F(verifier.isBatched($b)) & F(verifier.isContractReceive($b)) & ne($b.Previous(),types.ZeroHashHeight)"},
@@ -177,7 +177,7 @@ func runC03(r *Run) {
 	// path shape
 	acceptancePathRules(r)
 	r.DefersRecover("vm.(*Supervisor).applyBlock", "panics inside verifier/VM (nil amount, nil lookup) must reject, not crash")
-	r.Has("verifier.(*accountBlockTransactionVerifier).descendantBlocks", "store new(verifier.accountBlockVerifier).block = $tb.DescendantBlocks[(iter+1)]", "each descendant is the block checked")
+	r.Has("verifier.(*accountBlockTransactionVerifier).descendantBlocks", "store new(verifier.accountBlockVerifier).block = $tb.DescendantBlocks[iter]", "each descendant is the block checked")
 	r.Has("verifier.(*accountVerifier).AccountBlock", "store new(verifier.accountBlockVerifier).block = a0", "the verified block is the submitted one")
 	r.Has("verifier.(*accountVerifier).AccountBlock", "store new(verifier.accountBlockVerifier).accountStore = recv.getContext(a0)#0", "checks run against the predecessor's account state")
 	r.Has("verifier.(*accountVerifier).AccountBlock", "store new(verifier.accountBlockVerifier).momentumStore = recv.getContext(a0)#1", "checks run against the acknowledged momentum's view")
